@@ -303,6 +303,13 @@ pub fn random_rln_witness(tree_height: usize) -> RLNWitnessInput {
 pub fn proof_values_from_witness(rln_witness: &RLNWitnessInput) -> Result<RLNProofValues> {
     message_id_range_check(&rln_witness.message_id, &rln_witness.user_message_limit)?;
 
+    // a caller-supplied witness may carry index and element vectors of different lengths
+    if rln_witness.identity_path_index.len() != rln_witness.path_elements.len() {
+        return Err(Report::msg(
+            "identity_path_index and path_elements have different lengths",
+        ));
+    }
+
     // y share
     let a_0 = rln_witness.identity_secret;
     let a_1 = poseidon_hash(&[a_0, rln_witness.external_nullifier, rln_witness.message_id]);
